@@ -241,6 +241,7 @@ pub enum Verdict {
 
 thread_local! {
     static LAST_PANIC: std::cell::RefCell<String> = const { std::cell::RefCell::new(String::new()) };
+    static CATCH_DEPTH: std::cell::Cell<u32> = const { std::cell::Cell::new(0) };
 }
 
 pub fn install_panic_hook() {
@@ -256,6 +257,9 @@ pub fn install_panic_hook() {
             .location()
             .map(|l| format!("{}:{}", l.file(), l.line()))
             .unwrap_or_default();
+        if CATCH_DEPTH.with(|d| d.get()) == 0 {
+            eprintln!("HARNESS PANIC (outside a monitored call): {msg} @ {loc}");
+        }
         LAST_PANIC.with(|p| *p.borrow_mut() = format!("{msg} @ {loc}"));
     }));
 }
@@ -265,7 +269,10 @@ pub fn last_panic() -> String {
 
 /// Run `f`, returning Err(message) if it panicked.
 pub fn catch<T>(f: impl FnOnce() -> T) -> Result<T, String> {
-    match catch_unwind(AssertUnwindSafe(f)) {
+    CATCH_DEPTH.with(|d| d.set(d.get() + 1));
+    let r = catch_unwind(AssertUnwindSafe(f));
+    CATCH_DEPTH.with(|d| d.set(d.get() - 1));
+    match r {
         Ok(v) => Ok(v),
         Err(_) => Err(last_panic()),
     }
